@@ -72,8 +72,9 @@ def scan(repo):
             for no, raw in enumerate(lines, 1):
                 line = _strip_comment(raw)
                 s = line.strip()
-                if not s or s.startswith("use ") or s.startswith("#["):
-                    continue
+                if not s or s.startswith("use ") or s.startswith("#[") or re.match(r"(collections|hash_set)::", s) \
+                        or re.match(r"[A-Z][A-Za-z, ]+,$", s):
+                    continue            # imports
                 m = FN.search(line)
                 if m:
                     cur_fn = m.group(1)
